@@ -285,6 +285,16 @@ def arr_state(a):
 
 
 # =============================================================================== _binary_op
+class NpScalar(Model):
+    """a numpy scalar (np.int64(2), np.float32(1.5), np.bool_): not an int/float/ndarray instance for isinstance, but numpy makes an array of it"""
+    kinds = ("generic", "number", "integer", "signedinteger")
+
+    def __init__(self, text):
+        self.origin = text
+        self.shape = ()
+        self.dtype = DT("int64")
+
+
 def check_binary_op_fold(run, tree, stricts=(True, False)):
     hk = hooks()
     BQ = "core/array.py::_binary_op"
@@ -301,6 +311,12 @@ def check_binary_op_fold(run, tree, stricts=(True, False)):
         ("number, left operand dimensionless", lambda: 2.0, (("num", 2.0), "dimensionless"), (("num", 2.0), "dimensionless"), "dimensionless"),
         ("Array in another dimensionless unit, left operand dimensionless", lambda: new_array(tree, hk, "B", "percent"),
          (("*", "B", ("ratio", "percent", "dimensionless")), "dimensionless"), (("*", "B", ("ratio", "percent", "dimensionless")), "dimensionless"), "dimensionless"),
+        # every other operand kind numpy can turn into an array is wrapped the same way (never handed to numpy's reflected path, which knows no units)
+        ("numpy integer scalar", lambda: NpScalar("np.int64(2)"), "raise", "wrapped-dimensionless"),
+        ("python int", lambda: 2, "raise", "wrapped-dimensionless"),
+        ("python list", lambda: [1.0, 2.0, 3.0], "raise", "wrapped-dimensionless"),
+        ("numpy integer scalar, left operand dimensionless", lambda: NpScalar("np.int64(2)"), "wrapped-dimensionless", "wrapped-dimensionless", "dimensionless"),
+        ("python list, left operand dimensionless", lambda: [1.0, 2.0, 3.0], "wrapped-dimensionless", "wrapped-dimensionless", "dimensionless"),
     ]
     for strict in stricts:
         for label, mk, want_strict, want_loose, *rest in cases:
@@ -333,7 +349,10 @@ def check_binary_op_fold(run, tree, stricts=(True, False)):
                     else:
                         a, kw = op.calls[0]
                         wl = ("ARRAY-OBJECT", "A", lunit)
-                        wr = ("ARRAY-OBJECT",) + tuple(want)
+                        if want == "wrapped-dimensionless":
+                            wr = a[1] if len(a) == 2 and isinstance(a[1], tuple) and a[1][:1] == ("ARRAY-OBJECT",) and a[1][-1] == "dimensionless" else ("ARRAY-OBJECT", "<the operand>", "dimensionless")
+                        else:
+                            wr = ("ARRAY-OBJECT",) + tuple(want)
                         if len(a) != 2 or a[0] != wl or a[1] != wr:
                             problems.append("numpy function receives %s, required (%s, %s)" % (a, wl, wr))
                         if dict(kw).get("out") != ("ARRAY-OBJECT", "A", lunit):
@@ -365,6 +384,8 @@ def wrap_call(tree, hk, fname, dtype, rhs_unit="cm", with_out=False, rhs_kind="A
     a = new_array(tree, hk, "A", "m")
     if rhs_kind == "Array":
         b = new_array(tree, hk, "B", rhs_unit)
+    elif rhs_kind == "0-d Array":
+        b = new_array(tree, hk, "B", rhs_unit, shape=())
     elif rhs_kind == "number":
         b = 2.0
     elif rhs_kind == "ndarray":
@@ -440,7 +461,7 @@ def check_wrap_numpy_fold(run, tree, want=("gate-numeric", "gate-bool", "derive"
                 run.unresolved(construct, fi.where(), "cannot fold: %s" % e)
     # ---- what reaches numpy: buffers for Arrays, magnitudes for Quantities, everything else unchanged; units likewise
     if "operands" in want:
-        for kind, want_raw, want_unit in (("Array", ("raw", "B"), ("qty", 1.0, "cm")), ("number", 2.0, 2.0), ("ndarray", ("raw", "N"), ("raw", "N")),
+        for kind, want_raw, want_unit in (("Array", ("raw", "B"), ("qty", 1.0, "cm")), ("0-d Array", ("raw", "B"), ("qty", 1.0, "cm")), ("number", 2.0, 2.0), ("ndarray", ("raw", "N"), ("raw", "N")),
                                            ("Quantity", ("raw", "Qm"), ("qty", 1.0, "cm"))):
             construct = "%s._wrap_numpy::operand[%s]" % (ARRAY_Q, kind)
             try:
@@ -451,7 +472,8 @@ def check_wrap_numpy_fold(run, tree, want=("gate-numeric", "gate-bool", "derive"
                 ok2 = unit_call == (("qty", 1.0, "m"), want_unit)
                 run.ob(construct, ok1 and ok2, fi.where(), "numpy receives %s; the unit derivation receives %s" % (raw_call, unit_call),
                        "np.<f>(a, x) with x a %s: x reaches numpy / the unit derivation in the wrong form (e.g. the exponent of "
-                       "np.power replaced by 1.0, a Quantity's unit ignored)" % kind)
+                       "np.power replaced by 1.0, a Quantity's unit ignored, a 0-d Array handed over as a python scalar: the operation then runs in "
+                       "the other operand's dtype)" % kind)
             except Raised as e:
                 run.violated(construct, fi.where(), "raises %s" % e, "np.<f>(a, %s)" % kind)
             except ERR as e:
